@@ -39,13 +39,19 @@ FaViol(e) ==
         <<"C10", "chunked_equals_whole", Len(e.seq) = 0 \/
               /\ \A i \in 1..Len(e.iters) : e.iters[i].out = e.head_seq
               /\ \A k \in 1..Len(e.wraps) : \A i \in 1..Len(e.wraps[k].iters) : e.wraps[k].iters[i].out = e.wraps[k].head_wrap_seq>>,
-        <<"C10", "chunks_are_a_chunking", \A i \in 1..Len(e.iters) : Concat(e.iters[i].chunks) = e.seq>>
+        <<"C10", "chunks_are_a_chunking", \A i \in 1..Len(e.iters) : Concat(e.iters[i].chunks) = e.seq>>,
+        \* a sink that accepts a few bytes per call (and has the default write_vectored) must receive the same text
+        <<"C10", "short_writing_sink_roundtrip", ~dom \/ (/\ \A i \in 1..Len(e.short) : FaRound(e.short[i], e.head, e.seq)
+                                                          /\ \A k \in 1..Len(e.wraps) : LET w == e.wraps[k] IN
+                                                               /\ FaRound(w.short_write_wrap, e.head, e.seq) /\ FaWrapOK(w.short_write_wrap, w.w)
+                                                               /\ FaRound(w.short_owned_wrap, e.head, e.seq) /\ FaWrapOK(w.short_owned_wrap, w.w)
+                                                               /\ FaRound(w.short_iter, e.head, e.seq) /\ FaWrapOK(w.short_iter, w.w))>>
       >>
   IN {<<conj[i][1], conj[i][2]>> : i \in {i \in 1..Len(conj) : ~conj[i][3]}}
 
 FqViol(e) ==
   LET dom == HeadInDomain(e.head) /\ FqFieldInDomain(e.seq) /\ FqFieldInDomain(e.qual) /\ Len(e.seq) = Len(e.qual)
-      outs == <<e.write_to, e.write_parts, e.owned>>
+      outs == <<e.write_to, e.write_parts, e.owned>> \o e.short
       ok == ~dom \/ \A i \in 1..Len(outs) : FqRound(outs[i], e.head, e.seq, e.qual)
   IN IF ok THEN {} ELSE {<<"C11", "fastq_roundtrip">>}
 
